@@ -92,7 +92,7 @@ def fetch_run(case) -> dict:
     _, c = app()
     extra = ""
     if case["mode"] == "live":
-        extra = "&start=" + live_start(case["clock"])
+        extra = "&start=" + (case.get("start_param") or live_start(case["clock"]))
     q = query(case["event"], case["sched"], extra)
     if case.get("also"):
         # a second event type with its default options in the same request
@@ -216,14 +216,18 @@ def gen_case(rng, thorough: bool):
         tfdt0 = (numbers[0] - 1) * seg
     else:
         now = _parse_iso(clock)
-        ast = _parse_iso(live_start(clock))
+        # a third of the live runs are anchored at the Unix epoch: with a 1-10 MHz event timescale
+        # "now" is beyond 2^53 ticks (64-bit emsg v1 times, SCTE-35 PTS wrapped many times)
+        epoch = rng.random() < .35
+        ast = _parse_iso("1970-01-01T00:00:00Z") if epoch else _parse_iso(live_start(clock))
         newest = int((now - ast).total_seconds() * rep_ts) // seg - 1      # conservatively available
         m = rng.choice([2, 3, 5, 8, 12])
         back = rng.choice([0, 1, 3, 10, 100, 400]) if rng.random() < .8 else rng.randrange(0, 420)
         last = max(m + 1, newest - back)
         numbers = list(range(last - m + 1, last + 1))
         tfdt0 = (numbers[0] - 1) * seg
-    ts = rng.choice([100, 100, 240, 1000, 90000, 7])
+    epoch = mode == "live" and ast.year == 1970
+    ts = rng.choice([10 ** 7, 10 ** 7, 10 ** 6, 90000]) if epoch else rng.choice([100, 100, 240, 1000, 90000, 7, 10 ** 6])
     a0 = tfdt0 * ts // rep_ts
     seg_ticks = max(1, seg * ts // rep_ts)
     interval = max(1, rng.choice([seg_ticks // 3, seg_ticks // 2, seg_ticks, seg_ticks * 3 // 2, 2 * seg_ticks + 1,
@@ -240,6 +244,8 @@ def gen_case(rng, thorough: bool):
     else:
         start = a0 - interval * rng.randrange(0, 2000) + rng.randrange(0, interval)
     start = max(0, start)
+    if start > 2 ** 53 and start % 2 == 0:
+        start += 1          # odd values above 2^53 are not representable as doubles
     first = max(0, -(-(a0 - start) // interval))
     k = rng.random()
     if k < .45:
@@ -256,6 +262,8 @@ def gen_case(rng, thorough: bool):
     if event == "scte35":
         s["program_id"] = rng.choice([1620, 345, 65535])
     case = {"kind": "segments", "mode": mode, "clock": clock, "event": event, "sched": s, "numbers": numbers}
+    if epoch:
+        case["start_param"] = "epoch"
     if rng.random() < .15:
         case["also"] = "scte35" if event == "ping" else "ping"
     return case
@@ -265,9 +273,22 @@ def gen_manifest_case(rng):
     import props.c14 as P
     event, s = P.gen_oob(rng)
     s["count"] = min(s["count"], 40) if s["count"] < 500 else s["count"]
-    s["start"] = min(s["start"], 10 ** 9)
     if event == "scte35" and s["count"] > 500:
         s["count"] = 510
+    if rng.random() < .6:
+        # boundary values through the real option parser: Event@presentationTime is an unsigned
+        # 64-bit number, the timescale / duration attributes 32-bit
+        s["timescale"] = rng.choice([100, 90000, 10 ** 6, 10 ** 7, 2 ** 32 - 1])
+        s["start"] = E.boundary_value(rng, limit=2 ** 63, odd_above_2_53=True)
+        if rng.random() < .4:
+            s["interval"] = E.boundary_value(rng, limit=2 ** 62, odd_above_2_53=True)
+            s["count"] = min(s["count"], 3)
+        if event == "ping" and rng.random() < .4:
+            s["duration"] = E.boundary_value(rng, limit=2 ** 32)
+        elif event == "scte35":
+            s["duration"] = rng.choice([0, 200, s["timescale"]])       # 90 kHz break duration < 2^33
+    else:
+        s["start"] = min(s["start"], 10 ** 9)
     return {"kind": "manifest", "mode": rng.choice(["vod", "live"]), "clock": rng.choice(CLOCKS),
             "event": event, "sched": s}
 
@@ -359,6 +380,10 @@ def _segment_case(ch, case, lines, jobs):
         ch.count("emsg after moof")
     if case["mode"] == "live" and (case["numbers"][0] - 1) // 10 != (case["numbers"][-1] - 1) // 10:
         ch.count("run crosses a loop of the source")
+    if case.get("start_param") == "epoch":
+        ch.count("live anchored at the Unix epoch")
+    if case["sched"]["start"] > 2 ** 53:
+        ch.count("start > 2^53")
     if len(segs) >= 2 and nboxes:
         ch.nontrivial.add(json.dumps(case, sort_keys=True))
     def o(v):
@@ -403,6 +428,8 @@ def _manifest_case(ch, case, lines, jobs):
     scheme = E.PING_SCHEME if case["event"] == "ping" else E.SCTE_SCHEME
     streams = manifest_events(txt, scheme)
     ch.count(f"EventStream elements={len(streams)}")
+    if max(s["start"], s["interval"]) > 2 ** 53:
+        ch.count("manifest: start or interval > 2^53")
     for attrs, evs in streams[:1]:
         impl = ";".join(f"{i},{t},{d}" for i, t, d, _ in evs) or "-"
         lines.append(f"oob {s['start']} {s['interval']} {s['count']} {s['duration']} {1 if s['inband'] else 0}")
